@@ -856,11 +856,83 @@ def _adapt_for(fd: ast.FunctionDef, home: ast.Module, target: ast.Module, alias:
     return new
 
 
+def _qualnames(tree: ast.Module) -> T.Dict[str, ast.FunctionDef]:
+    out: T.Dict[str, ast.FunctionDef] = {}
+
+    def scan(stmts: T.List[ast.stmt], prefix: str = "") -> None:
+        for st in stmts:
+            if isinstance(st, ast.FunctionDef):
+                out[prefix + st.name] = st
+            elif isinstance(st, ast.ClassDef) and not prefix:
+                scan(st.body, st.name + ".")
+            elif isinstance(st, (ast.If, ast.Try)):
+                scan(getattr(st, "body", []), prefix)
+                scan(getattr(st, "orelse", []), prefix)
+    scan(tree.body)
+    return out
+
+
+def undo_renames(trees: T.Dict[str, ast.Module]) -> T.List[str]:
+    """A function of the pinned tree that vanished while exactly one new function of the same module (and class) has
+    its body - up to the names of parameters and locals - was renamed: the old name is restored, together with every
+    reference, so that the rules find their anchors.  Repeated, because the body of a caller mentions the new name."""
+    done: T.List[str] = []
+    for _round in range(4):
+        changed = False
+        for m, tree in trees.items():
+            known = baseline().get(m, {})
+            if not known:
+                continue
+            defs = _qualnames(tree)
+            vanished = {q: h for q, h in known.items() if h and q not in defs}
+            fresh = {q: fd for q, fd in defs.items() if q not in known}
+            if not vanished or not fresh:
+                continue
+            by_hash: T.Dict[str, T.List[str]] = {}
+            for q, fd in fresh.items():
+                by_hash.setdefault(body_hash(fd), []).append(q)
+            for old, h in sorted(vanished.items()):
+                cands = [q for q in by_hash.get(h, []) if q.rpartition(".")[0] == old.rpartition(".")[0]]
+                if len(cands) != 1 or [o for o, h2 in vanished.items() if h2 == h] != [old]:
+                    continue
+                new = cands[0]
+                new_name, old_name = new.rpartition(".")[2], old.rpartition(".")[2]
+                is_method = "." in new
+                # the new name must not be used for anything else
+                clash = any(isinstance(n, ast.arg) and n.arg == new_name for t in trees.values() for n in ast.walk(t))
+                if clash:
+                    continue
+                fresh[new].name = old_name
+                for n2, t in trees.items():
+                    mods, names = _module_aliases(t)
+                    for x in ast.walk(t):
+                        if is_method:
+                            if isinstance(x, ast.Attribute) and x.attr == new_name:
+                                x.attr = old_name
+                        elif n2 == m:
+                            if isinstance(x, ast.Name) and x.id == new_name:
+                                x.id = old_name
+                        else:
+                            if isinstance(x, ast.Attribute) and x.attr == new_name and isinstance(x.value, ast.Name) and mods.get(x.value.id) == m:
+                                x.attr = old_name
+                            elif isinstance(x, ast.alias) and x.name == new_name and any(v == (m, new_name) for v in names.values()):
+                                if x.asname is None:
+                                    x.asname = new_name          # local spelling stays, the imported object gets its old name back
+                                x.name = old_name
+                done.append(f"{m}.{new} -> {old_name}")
+                changed = True
+                break
+        if not changed:
+            break
+    return done
+
+
 def normalise_program(trees: T.Dict[str, ast.Module]) -> T.Dict[str, int]:
     """Expand the new helpers of every module (also across sibling modules); returns expanded call sites per module."""
     out = {m: 0 for m in trees}
     if os.environ.get("VERIF_NO_NORMALISE"):
         return out
+    undo_renames(trees)
     inliners: T.Dict[str, Inliner] = {}
     for m, tree in trees.items():
         known = dict(baseline().get(m, {}))
